@@ -416,3 +416,26 @@ M("C10", "omopso-tag-after-last-sync", "algorithm_swarm.py", "            it += 
 # twins
 M("C10", "twin-insert-or-replace", "datastore.py", UPS, 'sql_individuals_upsert = "INSERT OR REPLACE INTO individuals (id, individual) VALUES(?,?);"', "H")
 M("C10", "twin-nsga-no-syncall-but-per-individual", "algorithm_NSGAII.py", "        # sync changed individual informations\n        self.problem.data_store.sync_all()\n", "", "H")
+
+# ---------------------------------------------------------------- C02
+M("C02", "pair-range-from-i", "operators.py", "            for j in range(i + 1, len(individuals)):\n                q = individuals[j]\n                dom = self.comparator", "            for j in range(i, len(individuals)):\n                q = individuals[j]\n                dom = self.comparator")
+M("C02", "pair-range-short", "operators.py", "            for j in range(i + 1, len(individuals)):\n                q = individuals[j]\n                dom = self.comparator", "            for j in range(i + 1, len(individuals) - 1):\n                q = individuals[j]\n                dom = self.comparator")
+M("C02", "pair-range-skip", "operators.py", "            for j in range(i + 1, len(individuals)):\n                q = individuals[j]\n                dom = self.comparator", "            for j in range(i + 2, len(individuals)):\n                q = individuals[j]\n                dom = self.comparator")
+M("C02", "skip-equal-objectives", "operators.py", "                q = individuals[j]\n                dom = self.comparator.compare(p.costs_signed, q.costs_signed)", "                q = individuals[j]\n                if q.costs_signed[:-1] == p.costs_signed[:-1]:\n                    continue\n                dom = self.comparator.compare(p.costs_signed, q.costs_signed)")
+M("C02", "verdicts-crossed", "operators.py", "                if dom == 1:\n                    p.features['dominate'].append(q.id)\n                    q.features['domination_counter'] += 1\n                elif dom == 2:", "                if dom == 2:\n                    p.features['dominate'].append(q.id)\n                    q.features['domination_counter'] += 1\n                elif dom == 1:")
+M("C02", "counter-wrong-member", "operators.py", "                    p.features['dominate'].append(q.id)\n                    q.features['domination_counter'] += 1\n                elif dom == 2:", "                    p.features['dominate'].append(q.id)\n                    p.features['domination_counter'] += 1\n                elif dom == 2:")
+M("C02", "missing-mirror", "operators.py", "                elif dom == 2:\n                    p.features['domination_counter'] += 1\n                    q.features['dominate'].append(p.id)\n", "                elif dom == 2:\n                    p.features['domination_counter'] += 1\n")
+M("C02", "args-swapped", "operators.py", "dom = self.comparator.compare(p.costs_signed, q.costs_signed)", "dom = self.comparator.compare(q.costs_signed, p.costs_signed)")
+M("C02", "reset-shared-list", "operators.py", "        for individual in individuals:\n            individual.features['domination_counter'] = 0\n            individual.features['front_number'] = None\n            individual.features['dominate'] = []\n", "        shared = []\n        for individual in individuals:\n            individual.features['domination_counter'] = 0\n            individual.features['front_number'] = None\n            individual.features['dominate'] = shared\n")
+M("C02", "reset-counter-missing", "operators.py", "            individual.features['domination_counter'] = 0\n            individual.features['front_number'] = None", "            individual.features['front_number'] = None")
+M("C02", "zero-test-in-inner", "operators.py", "                    q.features['dominate'].append(p.id)\n\n            # selects the pareto values\n            if p.features['domination_counter'] == 0:\n                p.features['front_number'] = front_number\n                pareto_front[front_number - 1].append(p)\n", "                    q.features['dominate'].append(p.id)\n\n                # selects the pareto values\n                if p.features['domination_counter'] == 0:\n                    p.features['front_number'] = front_number\n                    pareto_front[front_number - 1].append(p)\n")
+M("C02", "front-start-zero", "operators.py", "        pareto_front = [[]]\n        front_number = 1\n", "        pareto_front = [[]]\n        front_number = 0\n")
+M("C02", "missing-decrement", "operators.py", "                    q.features['domination_counter'] -= 1\n                    if q.features['domination_counter'] == 0 and", "                    if q.features['domination_counter'] == 0 and")
+M("C02", "double-decrement", "operators.py", "                    q.features['domination_counter'] -= 1\n                    if q.features['domination_counter'] == 0 and", "                    q.features['domination_counter'] -= 2\n                    if q.features['domination_counter'] == 0 and")
+M("C02", "peel-wrong-front", "operators.py", "            for p in pareto_front[front_number - 2]:", "            for p in pareto_front[front_number - 1]:")
+M("C02", "rank-off-by-one", "operators.py", "                        q.features['front_number'] = front_number\n                        pareto_front[front_number - 1].append(q)", "                        q.features['front_number'] = front_number - 1\n                        pareto_front[front_number - 1].append(q)")
+M("C02", "rank-le-zero", "operators.py", "if q.features['domination_counter'] == 0 and q.features['front_number'] is None:", "if q.features['domination_counter'] <= 1 and q.features['front_number'] is None:")
+M("C02", "stray-front-write", "operators.py", "        if len(pareto_front[front_number - 1]) == 0:\n            pareto_front.pop()", "        if len(pareto_front[front_number - 1]) == 0:\n            pareto_front.pop()\n        individuals[0].features['front_number'] = 1")
+# twins
+M("C02", "twin-no-none-test", "operators.py", "if q.features['domination_counter'] == 0 and q.features['front_number'] is None:", "if q.features['domination_counter'] == 0:", "H")
+M("C02", "twin-range-outer", "operators.py", "        for i, p in enumerate(individuals):\n            for j in range(i + 1, len(individuals)):", "        for i in range(len(individuals)):\n            p = individuals[i]\n            for j in range(i + 1, len(individuals)):", "H")
